@@ -165,9 +165,46 @@ def check_native(ctx, case, res):
     return res
 
 
+def gen_fanout(rng):
+    """A list-entry $match that selects several entries (each gets its own copy of the patch), then layers that edit inside one of them."""
+    labels = {'fanout'}
+    n = rng.randint(2, 4)
+    groups = [rng.choice(['x', 'x', 'y']) for _ in range(n)]
+    groups[0] = groups[1] = 'x'
+    items = [{'n': 'i%d' % k, 'g': groups[k]} for k in range(n)]
+    pre = rng.choice(['none', 'empty', 'filled'])
+    for it in items:
+        # the entries may already hold the containers the patch extends (then the patch's entries are appended, not copied in as a whole)
+        if pre == 'empty':
+            it.update({'lst': [], 'added': {}})
+        elif pre == 'filled':
+            it.update({'lst': [{'z': 0}], 'added': {'p': {'old': True}}})
+    labels.add('fanout-pre:' + pre)
+    steps = [{'id': 'b0', 'parents': [], 'data': {'name': 'n0', 'kind': 'a', 'items': items}}]
+    patch = {'$match': {'g': 'x'}}
+    patch.update(rng.choice([{'added': {'p': {'q': 1}}}, {'lst': [{'z': 1}, {'z': 2}]}, {'added': {'p': {'q': 1}}, 'lst': [{'z': 1}]}, {'added': {'$replace': True, 'r': {'s': 1}}},
+                             {'lst': [{'z': 1, 'deep': {'d': [1]}}]}]))
+    steps.append({'id': 'l0d0', 'parents': ['b0'], 'data': {'items': [patch]}})
+    prev = 'l0d0'
+    for li in range(1, rng.randint(2, 3)):
+        who = rng.choice([k for k in range(n) if groups[k] == 'x'])
+        ed = {'$match': {'n': 'i%d' % who}}
+        if 'added' in patch and rng.random() < 0.7:
+            ed['added'] = rng.choice([{'p': {'q': 10 + li}}, {'p': {'extra': li}}, {'r': {'s': 5, 't': li}}, {'new%d' % li: [li]}])
+        if 'lst' in patch and (rng.random() < 0.7 or len(ed) == 1):
+            ed['lst'] = rng.choice([[{'$match': {'z': 1}, 'w': li}], [{'z': 9}], [{'$delete': {'z': 1}}]])
+        if len(ed) == 1:
+            ed['touched'] = li
+        steps.append({'id': 'l%dd0' % li, 'parents': [prev], 'data': {'items': [ed]}})
+        prev = 'l%dd0' % li
+    return {'steps': steps, 'labels': sorted(labels), 'files': rng.random() < 0.3}
+
+
 def gen_case(rng, i, tier):
     if rng.random() < 0.03:
         return gen_native(rng)
+    if rng.random() < 0.04:
+        return gen_fanout(rng)
     labels = set()
     st = Stream()
     steps = []
